@@ -17,6 +17,8 @@ pub enum Entry {
     /// a well-formed file; the number identifies it (it is encoded as the file's UTC offset)
     Valid(i32),
     Garbage,
+    /// readable, zero bytes long: still "a file that was read" (malformed), never "no file"
+    Empty,
 }
 
 #[derive(Clone, Debug, PartialEq)]
